@@ -10,7 +10,8 @@ THEOREMS = ["C08_delay_encoding", "C08_no_overflow", "C08_no_indeterminate_byte"
             # GD3 text: the writer's UTF-8 decoder against the reader-side encoder
             "C08_utf8_decode_encode", "C08_utf8_valid_tag", "C08_utf8_decoder_scalars", "C08_gd3_renders_tag",
             # whole songs: Platform::vgm_export + MD_Driver
-            "C08_invalid_tag_range_error", "C08_md_export_hyps", "C08_full", "C08_pcm_windows_are_samples"]
+            "C08_invalid_tag_range_error", "C08_md_export_hyps", "C08_full_partial", "C08_pcm_windows_are_samples",
+            "C08_pcm_offset_counterexample", "C08_example_pcm_bank", "C08_example_pcm_ops", "mdPokes_eq"]
 LEVEL = "proof"
 STREAM = "vgmw.ops+vgmsong+c08song"
 CHUNK = 40
@@ -327,8 +328,9 @@ def song_tag_tokens(rng, bad=False):
         if rng.random() < 0.35:
             kind = rng.choice(list(CHARS))
             n = rng.choice([1, 2, 10, 100, 255, 256, 257, 300]) if rng.random() < 0.3 else rng.randrange(1, 30)
-            b = (CHARS[kind] * n).encode() if rng.random() < 0.5 else "".join(
-                rng.choice(list(CHARS.values()) + list("Song Title 01")) for _ in range(min(n, 40))).encode()
+            # Song::set_tag deletes trailing white space; an empty #vgmdate / #comment would bring in the wall clock / build stamp
+            b = (CHARS[kind] * n).encode() if rng.random() < 0.5 else ("".join(
+                rng.choice(list(CHARS.values()) + list("Song Title 01")) for _ in range(min(n, 40))).strip() or "x").encode()
             toks.append("%s=%s" % (k, b.hex() or "-"))
             tg |= tag_tags([b.hex()]) if b else {"tag-empty"}
     if bad:
@@ -356,6 +358,7 @@ def model_song(rng, quick, pcm=True, offset=False):
         for i in range(npcm):
             n = rng.choice([1, 2, 3, 17, 64, 255, 256, 257] if quick else [1, 2, 3, 17, 64, 255, 256, 257, 1000, 4000])
             data = [rng.randrange(256) for _ in range(n)] if not pool or rng.random() < 0.8 else list(rng.choice(pool))
+            n = len(data)
             pool.append(data)
             blob, exp = wav_bytes(data, rng.choice([8, 16]), rng.choice([8000, 11025, 17500]))
             name = "s%d.wav" % i
@@ -522,10 +525,10 @@ def cases(rng, tier):
     for bx in BAD_UTF8:
         for k in ("#title", "#composerj", "#comment"):
             yield Case("c08song T0:2.40.6.2 T6:2.45.3.3 %s=%s" % (k, bx), ["song", "song-model", "tags", "tag-invalid-utf8"], "song-model")
-    for i in range(40 if quick else 400):
+    for i in range(120 if quick else 1200):
         r, tg = model_song(rng, quick, pcm=(i % 4 != 3), offset=False)
         yield Case(r, tg, "song-model")
-    for i in range(4 if quick else 30):
+    for i in range(6 if quick else 40):
         r, tg = model_song(rng, quick, pcm=True, offset=True)
         yield Case(r, tg, "song-model")
 
@@ -601,7 +604,7 @@ LEVEL_TEXT = ("Machine-checked theorems, two layers. (1) Over a Lean model of vg
               "offset addresses the byte after the end marker; loop offset is a command boundary with exactly D samples before it and header "
               "0x20 = total - D (both fields zero without loop point); the GD3 block is exact and splits into exactly eleven terminated UTF-16 "
               "strings = the decoded tags cut at 256 units; declared clocks survive into the final header for every chip command; every stream "
-              "start addresses bytes of the type-0 data blocks written before it. (2) C08_full: for EVERY song, instrument data and tag map, over the model of "
+              "start addresses bytes of the type-0 data blocks written before it. (2) C08_full_partial: for EVERY song, instrument data and tag map, over the model of "
               "Platform::vgm_export + MD_Driver + get_tags (Model/MdDriver, incl. PCM instruments): the operation sequence the exporter performs "
               "satisfies the side conditions of layer 1 (C08_md_export_hyps: MD pokes declare both clocks, writes go only to SN76489 and YM2612 "
               "ports 0/1, one type-0 data block = used wave rom, stream starts = windows of PCM instruments' sample headers, delays < 2^31), so "
@@ -613,7 +616,7 @@ LEVEL_TEXT = ("Machine-checked theorems, two layers. (1) Over a Lean model of vg
 LEVEL_NOTE = ("Trusted: Lean kernel, the hand-written models Model/Vgm.lean, Model/MdDriver.lean (+ PlayerCh, Wave) (agreement with vgm.cpp, song.cpp, md.cpp by "
               "differential testing under ASan with every fresh heap byte filled, zero differences, on operation sequences and on whole songs "
               "incl. PCM instruments and tags), Spec/VgmParse.lean, file < 4 GiB for the 32-bit offset clauses, g++/ASan/UBSan and the harness. "
-              "Hypotheses of C08_full that are not discharged: the driver part completes (no player error, within max_seconds), the wave bank "
+              "Hypotheses of C08_full_partial that are not discharged (C08_full_statement is kept in the property file; C08_pcm_offset_counterexample shows the bank hypothesis is needed): the driver part completes (no player error, within max_seconds), the wave bank "
               "satisfies C14's allocator invariant (false for offset= on fresh data: known finding d11:offset-window), the song stays in the "
               "modelled subset (no platform commands / pitch envelopes / macro tracks / pcm_mode 2,3), MDSDRV_Data::read_song is represented by "
               "its result (instrument table + wave bank); MML-level songs outside the subset are decided per case by the spec oracle on the "
